@@ -128,7 +128,8 @@ def run(pid, tier, seed, a, t0):
                 o.contract = c
             by_contract[c.key] = obls
             allobls.extend(obls)
-            functions.append(c.key)
+            if not c.options.get("trusted"):
+                functions.append(c.key)     # a trusted (assumed) contract is not a function under contract
             if a.verbose:
                 print("  gen %-45s %4d obligations" % (c.key, len(obls)))
         except (symex.ContractMismatch, symex.Unsupported) as e:
